@@ -577,10 +577,20 @@ void MemoryLeakDetector::storeLeakInformation(MemoryLeakDetectorNode * node, cha
 
 char* MemoryLeakDetector::reallocateMemoryAndLeakInformation(TestMemoryAllocator* allocator, char* memory, size_t size, const char* file, size_t line, bool allocatNodesSeperately)
 {
-    char* new_memory = reallocateMemoryWithAccountingInformation(allocator, memory, size, file, line, allocatNodesSeperately);
-    if (new_memory == NULLPTR) return NULLPTR;
+    /* a separately allocated node is obtained first: when that fails nothing has happened to the old block yet */
+    MemoryLeakDetectorNode *node = NULLPTR;
+    if (allocatNodesSeperately) {
+        node = createMemoryLeakAccountingInformation(allocator, size, memory, allocatNodesSeperately);
+        if (node == NULLPTR) return NULLPTR;
+    }
 
-    MemoryLeakDetectorNode *node = createMemoryLeakAccountingInformation(allocator, size, new_memory, allocatNodesSeperately);
+    char* new_memory = reallocateMemoryWithAccountingInformation(allocator, memory, size, file, line, allocatNodesSeperately);
+    if (new_memory == NULLPTR) {
+        if (allocatNodesSeperately) allocator->freeMemoryLeakNode((char*) node);
+        return NULLPTR;
+    }
+
+    if (!allocatNodesSeperately) node = createMemoryLeakAccountingInformation(allocator, size, new_memory, allocatNodesSeperately);
     storeLeakInformation(node, new_memory, size, allocator, file, line);
     return node->memory_;
 }
@@ -667,6 +677,10 @@ char* MemoryLeakDetector::allocMemory(TestMemoryAllocator* allocator, size_t siz
     char* memory = allocateMemoryWithAccountingInformation(allocator, size, file, line, allocatNodesSeperately);
     if (memory == NULLPTR) return NULLPTR;
     MemoryLeakDetectorNode* node = createMemoryLeakAccountingInformation(allocator, size, memory, allocatNodesSeperately);
+    if (node == NULLPTR) {
+        allocator->free_memory(memory, size, file, line);
+        return NULLPTR;
+    }
 
     storeLeakInformation(node, memory, size, allocator, file, line);
     return node->memory_;
